@@ -947,6 +947,9 @@ def parse_case_lines(out):
         key = (w[1], int(w[2]))
         d = {}
         for f in w[3:]:
+            if "=" not in f:
+                d.setdefault("_malformed", []).append(f)          # a torn line (the program died while printing): the missing fields are reported as a failed case
+                continue
             k, v = f.split("=", 1)
             d[k] = v
         res[key] = d
